@@ -6,6 +6,7 @@ import (
 	"errors"
 	"io"
 	"net/http"
+	"sync"
 
 	"github.com/tailscale/setec/client/setec"
 	"github.com/tailscale/setec/types/api"
@@ -20,13 +21,59 @@ import (
 // returns (status, body, true) to do so - a front end that answers for the service.
 func (s *Svc) Wire() setec.Client { return s.WireRaw(nil) }
 
+// WireConns is Wire over a transport that keeps at most maxConns connections to the service (as an
+// http.Transport with MaxConnsPerHost does): a connection is busy from the moment a request is sent
+// until its reply body has been read to the end or closed; while all are busy the next request waits
+// (or fails when its context ends).
+func (s *Svc) WireConns(maxConns int) setec.Client {
+	return s.wire(nil, make(chan struct{}, maxConns))
+}
+
 func (s *Svc) WireRaw(raw func(n int, name string) (int, []byte, bool)) setec.Client {
+	return s.wire(raw, nil)
+}
+
+// connBody is a reply body that gives its connection back when it has been read to the end or closed.
+type connBody struct {
+	r    *bytes.Reader
+	once sync.Once
+	free func()
+}
+
+func (b *connBody) Read(p []byte) (int, error) {
+	n, err := b.r.Read(p)
+	if err == io.EOF {
+		b.once.Do(b.free)
+	}
+	return n, err
+}
+func (b *connBody) Close() error { b.once.Do(b.free); return nil }
+
+func (s *Svc) wire(raw func(n int, name string) (int, []byte, bool), conns chan struct{}) setec.Client {
 	n := 0
 	reply := func(r *http.Request, code int, body []byte) *http.Response {
+		rb := io.ReadCloser(io.NopCloser(bytes.NewReader(body)))
+		if conns != nil {
+			rb = &connBody{r: bytes.NewReader(body), free: func() { <-conns }}
+		}
 		return &http.Response{StatusCode: code, Status: http.StatusText(code), Proto: "HTTP/1.1", ProtoMajor: 1, ProtoMinor: 1,
-			Header: http.Header{"Content-Type": []string{"application/json"}}, Body: io.NopCloser(bytes.NewReader(body)), ContentLength: int64(len(body)), Request: r}
+			Header: http.Header{"Content-Type": []string{"application/json"}}, Body: rb, ContentLength: int64(len(body)), Request: r}
 	}
-	return setec.Client{Server: "http://setec.fake", DoHTTP: func(r *http.Request) (*http.Response, error) {
+	return setec.Client{Server: "http://setec.fake", DoHTTP: func(r *http.Request) (resp *http.Response, rerr error) {
+		if conns != nil {
+			select {
+			case conns <- struct{}{}:
+			case <-r.Context().Done():
+				return nil, r.Context().Err()
+			case <-s.release:
+				return nil, errors.New("fake service: released by harness")
+			}
+			defer func() {
+				if rerr != nil {
+					<-conns // a failed round trip has no body to wait for
+				}
+			}()
+		}
 		body, err := io.ReadAll(r.Body)
 		if err != nil {
 			return nil, err
